@@ -1,7 +1,10 @@
+\* C11: one TLC run checks the invariants of TokenAuth on every behaviour AND prints
+\* each complete behaviour (EmitTrace) for the replay against the real code
 SPECIFICATION Spec
 CONSTANTS
   Bug = {}
   Kinds <- AllKinds
   VKinds <- AllVKinds
-INVARIANT EmitTrace
+INVARIANTS TypeOK ServerOkImpliesClientKnewSig ServerOkImpliesTokenCurrent ServerIdentityIsSubject
+           ClientOkImpliesServerKnewSig VerifyAcceptsExactly HonestRunSucceeds EmitTrace
 CHECK_DEADLOCK FALSE
